@@ -336,8 +336,14 @@ func (c *ctx) tkNewRun(u *universe, w *hWorld, tag string, mons []monitor, b *tk
 }
 
 // fork continues on a clone of the world (no history: the clone does not start from an empty message pool)
+// tkForkHooks: monitors that keep per-world history state copy it to the clone here
+var tkForkHooks []func(from, to *hWorld)
+
 func (r *tkRun) fork(tag string) *tkRun {
 	n := &tkRun{c: r.c, u: r.u, w: tkCloneWorld(r.w), tag: tag, mons: r.mons, budget: r.budget, hist: append([]string(nil), r.hist...)}
+	for _, h := range tkForkHooks {
+		h(r.w, n.w)
+	}
 	if p, ok := c01Prov[r.w]; ok {
 		q := map[int]bool{}
 		for k, v := range p {
@@ -582,7 +588,9 @@ func monC01(c *ctx, w *hWorld, pre *worldSnap, sr *stepResult, hist []string) {
 				}
 			}
 			if !ok {
-				c.fail("monitor", "refund-rejected/"+cs.Fn, fmt.Sprintf("%s: return-after-error refund refused (%v)", cs.Fn, sr.Res.Err), tkReplay(sr, hist))
+				c.fail("monitor", "refund-rejected/"+cs.Fn+"/no-admissible-reason",
+					fmt.Sprintf("%s: the return-after-error refund of a refused message was itself refused (%v); the debited quantity stays lost (a refund ignores frozen / paused / payability; only another NFT or entry type under the key may stop it)", cs.Fn, sr.Res.Err),
+					tkReplay(sr, hist))
 			} else {
 				c.count("c01/refund-rejected/" + rs[0])
 			}
@@ -941,6 +949,103 @@ func c01SystemAccountDest(c *ctx, u *universe, b *tkBudget) {
 	}
 }
 
+// c01LateBlock: the blocking condition appears AFTER the successful sender-side execution and BEFORE the delivery:
+// the delivery must be refused, and the return-after-error refund must succeed although the token is still paused on the
+// sender's shard and / or the sender's own entries are frozen, and must restore the sender's balances.
+func c01LateBlock(c *ctx, u *universe, b *tkBudget, extra map[string]int) {
+	A, X := u.U[0], u.U[2]
+	F, F2, S := u.Fung[0], u.Fung[1], u.NFTs[1]
+	type item struct {
+		tok   []byte
+		nonce uint64
+	}
+	kinds := []struct {
+		name  string
+		fn    string
+		rcpt  []byte
+		args  [][]byte
+		items []item
+	}{
+		{"ESDTTransfer", "ESDTTransfer", X, [][]byte{F, be(10)}, []item{{F, 0}}},
+		{"ESDTTransfer-whole-balance", "ESDTTransfer", X, [][]byte{F, be(1000)}, []item{{F, 0}}},
+		{"ESDTNFTTransfer", "ESDTNFTTransfer", A, [][]byte{S, be(1), be(3), X}, []item{{S, 1}}},
+		{"ESDTNFTTransfer-whole-balance", "ESDTNFTTransfer", A, [][]byte{S, be(2), be(7), X}, []item{{S, 2}}},
+		{"multi-fungible-1", "MultiESDTNFTTransfer", A, tkMulti(X, F, nil, be(10)), []item{{F, 0}}},
+		{"multi-fungible-2", "MultiESDTNFTTransfer", A, tkMulti(X, F, nil, be(10), F2, nil, be(1000)), []item{{F, 0}, {F2, 0}}},
+		{"multi-nft", "MultiESDTNFTTransfer", A, tkMulti(X, S, be(1), be(3), S, be(2), be(7)), []item{{S, 1}, {S, 2}}},
+		{"multi-mixed", "MultiESDTNFTTransfer", A, tkMulti(X, S, be(1), be(3), F, nil, be(10), S, be(1), be(2)), []item{{S, 1}, {F, 0}}},
+		{"multi-mixed-fungible-first", "MultiESDTNFTTransfer", A, tkMulti(X, F, nil, be(10), S, be(1), be(3)), []item{{F, 0}, {S, 1}}},
+	}
+	blocks := []string{"pause-both-shards", "pause-destination-shard", "freeze-destination", "freeze-destination-and-sender", "pause-both-shards-and-freeze-both"}
+	idx := 0
+	for _, k := range kinds {
+		for _, blk := range blocks {
+			for _, seeded := range []bool{false, true} {
+				idx++
+				w := u.stdWorld(2, uint32(idx%2), distinctGas(uint64(15+idx%11), 3))
+				u.populate(w)
+				tag := fmt.Sprintf("late-block/%s/%s/dest-holds=%v", k.name, blk, seeded)
+				r := c.tkNewRun(u, w, tag, []monitor{monC01}, b, true)
+				args := k.args
+				if seeded { // the destination already holds the NFT entries (the fungible ones it holds anyway)
+					for _, it := range k.items {
+						if it.nonce > 0 {
+							sr := r.must(r.tx(A, A, "ESDTNFTTransfer", bigGas, it.tok, be(it.nonce), be(1), X), "seed")
+							r.must(r.deliver(sr.NewMsgs[0]), "seed delivery")
+						}
+					}
+					switch k.name { // one unit of nonce 2 has been moved already
+					case "ESDTNFTTransfer-whole-balance":
+						args = [][]byte{S, be(2), be(6), X}
+					case "multi-nft":
+						args = tkMulti(X, S, be(1), be(3), S, be(2), be(6))
+					}
+				}
+				before := tkAcctBalances(w, A)
+				cs := w.mkCall(0, k.fn, A, k.rcpt, args, bigGas)
+				sr := r.call(cs)
+				if !tkOK(sr) || len(sr.NewMsgs) != 1 {
+					extra["late-block/origin-not-accepted"]++
+					c.count("c01/late-block/origin-not-accepted")
+					continue
+				}
+				m := sr.NewMsgs[0]
+				for _, it := range k.items {
+					key := []byte(tkKey(it.tok, it.nonce))
+					if strings.HasPrefix(blk, "pause") {
+						r.must(r.sysOn(1, u.SYS, "ESDTPause", it.tok), "pause on the destination shard")
+						if strings.HasPrefix(blk, "pause-both") {
+							r.must(r.sysOn(0, u.SYS, "ESDTPause", it.tok), "pause on the sender's shard")
+						}
+					}
+					if strings.Contains(blk, "freeze") {
+						r.must(r.sysOn(1, X, "ESDTFreeze", key), "freeze the destination")
+						if strings.Contains(blk, "sender") || strings.Contains(blk, "freeze-both") {
+							r.must(r.sysOn(0, A, "ESDTFreeze", key), "freeze the sender")
+						}
+					}
+				}
+				outcome := "delivered(unexpected)"
+				if d := r.deliver(m); !tkOK(d) {
+					outcome = "refused-refund-failed"
+					if f := r.refund(m); tkOK(f) {
+						outcome = "refused-refunded"
+						after := tkAcctBalances(w, A)
+						if kk := tkFirstDiff(before, after); kk != "" {
+							c.fail("monitor", "refund-not-restoring/"+k.fn,
+								fmt.Sprintf("%s: after refused delivery and refund the sender's balance of key %s is %v, before the transfer %v", k.fn, kk, after[kk], before[kk]),
+								map[string]interface{}{"scenario": tag, "call": describeCall(cs), "pre": digestAccounts(sr.Res.Pre), "history": histReplay(r.hist)})
+						}
+					}
+				}
+				extra["late-block/"+outcome]++
+				c.count("c01/late-block/" + blk + "/" + outcome)
+				r.emitHist("C01 scenario " + tag)
+			}
+		}
+	}
+}
+
 func c01Tune(g *gen) {
 	g.wTransfer, g.wDeliver, g.wSystem, g.wSupply, g.wHostile, g.wAccount = 50, 26, 9, 8, 7, 0
 }
@@ -949,7 +1054,7 @@ func init() {
 	runners["C01"] = func(c *ctx) {
 		u := newUniverse()
 		proj := tkProj(true, true)
-		c.rep.Rule = "(1) scenario families on fresh 2-shard worlds: {fungible, SFT, NFT} x {ESDTTransfer/ESDTNFTTransfer, multi with 1, 2, 3 tokens incl. a repeated token} x {destination already holds the token / holds nothing} x {none, frozen, paused, not payable, oracle error, other NFT with the same key} x {same shard, cross shard}: transfer, delivery, and after a rejected delivery the return-after-error refund (sender's balances must be back); three in-flight messages delivered in all 6 orders; aliasing identifiers (F4b world: holder of ABC-123456 nonce 0x44 names ABC-12345 nonce 0x3644), repaired F4a shape, unknown / empty ids. " +
+		c.rep.Rule = "(1) scenario families on fresh 2-shard worlds: {fungible, SFT, NFT} x {ESDTTransfer/ESDTNFTTransfer, multi with 1, 2, 3 tokens incl. a repeated token} x {destination already holds the token / holds nothing} x {none, frozen, paused, not payable, oracle error, other NFT with the same key} x {same shard, cross shard}: transfer, delivery, and after a rejected delivery the return-after-error refund (sender's balances must be back); the same transfers (ESDTTransfer, ESDTNFTTransfer, multi fungible-only / NFT-only / mixed, partial and whole balance) with the blocking condition installed AFTER the successful sender-side execution (token paused on the destination shard or on both shards, destination frozen, sender frozen too): delivery refused, refund must succeed despite pause / freeze on the sender side and restore the sender; three in-flight messages delivered in all 6 orders; aliasing identifiers (F4b world: holder of ABC-123456 nonce 0x44 names ABC-12345 nonce 0x3644), repaired F4a shape, unknown / empty ids. " +
 			"(2) random walks over 1-3 shard worlds weighted to transfers, deliveries, refunds, freeze/pause, hostile argument lists. " +
 			"After EVERY executed ESDTTransfer / ESDTNFTTransfer / MultiESDTNFTTransfer (sender side, delivery, refund) the monitor recomputes on the real storage: per storage-level key the sum over all accounts of all shards + undelivered messages is unchanged; failed call = identical world; exact debit per (token, nonce) with repeats accumulated; exact credit; no other (account, key) changes; the emitted message carries the debit; a refused delivery must have an admissible reason in the destination's pre-state. " +
 			"Every executed call is re-executed by the Coq model (projection: status, output transfers, complete post-state of the shard) and every scenario / walk as a whole history by the Coq world model. distinct = distinct (world state, operation)."
@@ -987,6 +1092,11 @@ func init() {
 		c01AliasFamily(c, u, &tkBudget{max: 60})
 		c01Orders(c, u, &tkBudget{max: 40})
 		c01SystemAccountDest(c, u, &tkBudget{max: 20})
+		lb := &tkBudget{max: 450}
+		if !quick {
+			lb.max = 2000
+		}
+		c01LateBlock(c, u, lb, extra)
 		c.rep.Extra = map[string]interface{}{"scenario_outcomes": extra, "scenarios": idx}
 		n, ops, prob, max := 8, 250, 2, 1000
 		if !quick {
